@@ -7,6 +7,8 @@ import (
 	"bytes"
 	"encoding/json"
 	"fmt"
+	"math"
+	"strconv"
 	"strings"
 	"testing"
 	"time"
@@ -35,6 +37,8 @@ type C06Plan struct {
 	TCols    []string `json:"t_cols,omitempty"`
 	TPK      []uint32 `json:"t_pk,omitempty"`
 	NoIndex  bool     `json:"no_index,omitempty"` // table written without block indices (older writers)
+	// profile kind: table profiles with every float statistic drawn from a list of awkward values
+	ProfCols [][]string `json:"prof_cols,omitempty"` // per column: min, max, mean, median, stdDeviation as text ("" = absent, "NaN", "+Inf", "-0", ...)
 }
 
 func init() {
@@ -43,6 +47,19 @@ func init() {
 		Rule: "field extremes through `wrgl commit` (message / author name / email of 0, 1, 65535, 65536, 70000 bytes; node clock up to year 2292, before 1970, zone offsets -12h..+14h incl. half hours; rows whose encoding crosses 64 KiB; blocks of 1..255 rows) and the packfile length header over varint boundaries, 32-bit and sampled 64-bit lengths; oracle: error at write time with the branch untouched, or the commit reads back equal; the C06 write monitor checks key = hash, decode and re-encode on every stored object; non-trivial = a field at or over a limit or a clock/zone extreme; distinct by plan hash",
 		Gen: func(seed uint64, tier string) any {
 			r := NewRand(seed)
+			if r.Chance(0.08) {
+				// what the profiler computes for columns holding "NaN" / "inf" / huge cells
+				vals := []string{"", "0", "-0", "1", "-1.5", "NaN", "+Inf", "-Inf", "1e308", "5e-324", "1.7976931348623157e308", "123456789.123456789"}
+				p := C06Plan{Kind: "profile"}
+				for c := r.Range(1, 4); c > 0; c-- {
+					col := make([]string, 5)
+					for i := range col {
+						col[i] = Pick(r, vals)
+					}
+					p.ProfCols = append(p.ProfCols, col)
+				}
+				return p
+			}
 			if r.Chance(0.15) {
 				p := C06Plan{Kind: "table", NBlocks: Pick(r, []int{0, 1, 2, 3, 255, 256, 1023, 1024, 1025, 1026, 2047, 2048, 2049, 3000, 5000}), LastRows: Pick(r, []int{1, 2, 254, 255})}
 				if r.Chance(0.3) {
@@ -104,6 +121,10 @@ func execC06(t *testing.T, raw json.RawMessage, res *Result) {
 	}
 	if p.Kind == "table" {
 		execC06Table(&p, res)
+		return
+	}
+	if p.Kind == "profile" {
+		execC06Profile(&p, res)
 		return
 	}
 	if p.Kind == "header" {
@@ -403,4 +424,96 @@ func execC06Table(p *C06Plan, res *Result) {
 		res.probe("table_over_1024_blocks", 1)
 	}
 	res.Nontrivial = p.NBlocks >= 2
+}
+
+// execC06Profile round-trips a table profile whose float statistics take awkward values
+// (NaN, infinities, negative zero, the extremes) through WriteTo / SaveTableProfile / GetTableProfile.
+func execC06Profile(p *C06Plan, res *Result) {
+	if len(p.ProfCols) == 0 || len(p.ProfCols) > 16 {
+		res.Invalid("profile plan")
+		return
+	}
+	parse := func(s string) (*float64, bool) {
+		if s == "" {
+			return nil, true
+		}
+		f, err := strconv.ParseFloat(s, 64)
+		if err != nil {
+			return nil, false
+		}
+		return &f, true
+	}
+	prof := &objects.TableProfile{RowsCount: 3}
+	for i, c := range p.ProfCols {
+		if len(c) != 5 {
+			res.Invalid("profile column")
+			return
+		}
+		col := &objects.ColumnProfile{Name: fmt.Sprintf("c%d", i), NACount: uint32(i), MinStrLen: 1, MaxStrLen: 9, AvgStrLen: 4}
+		ptrs := []**float64{&col.Min, &col.Max, &col.Mean, &col.Median, &col.StdDeviation}
+		for j, txt := range c {
+			f, ok := parse(txt)
+			if !ok {
+				res.Invalid("float %q", txt)
+				return
+			}
+			*ptrs[j] = f
+		}
+		prof.Columns = append(prof.Columns, col)
+	}
+	var b bytes.Buffer
+	if _, err := prof.WriteTo(&b); err != nil {
+		res.Violate("profile-write-error", "writing a table profile failed: %v", err)
+		return
+	}
+	st := NewStore("P", &World{})
+	sum := meowSum([]byte("table"))
+	if err := objects.SaveTableProfile(st, sum, b.Bytes()); err != nil {
+		res.Invalid("save: %v", err)
+		return
+	}
+	got, err := objects.GetTableProfile(st, sum)
+	if err != nil {
+		res.Violate("profile-unreadable", "a table profile written without error does not read back: %v", err)
+		return
+	}
+	if len(got.Columns) != len(prof.Columns) || got.RowsCount != prof.RowsCount {
+		res.Violate("profile-differs", "profile reads back with %d columns / %d rows, written %d / %d", len(got.Columns), got.RowsCount, len(prof.Columns), prof.RowsCount)
+		return
+	}
+	same := func(a, b *float64) bool {
+		if a == nil || b == nil {
+			return a == nil && b == nil
+		}
+		return math.Float64bits(*a) == math.Float64bits(*b) || (math.IsNaN(*a) && math.IsNaN(*b))
+	}
+	show := func(f *float64) string {
+		if f == nil {
+			return "absent"
+		}
+		return strconv.FormatFloat(*f, 'g', -1, 64)
+	}
+	names := []string{"min", "max", "mean", "median", "stdDeviation"}
+	for i, w := range prof.Columns {
+		g := got.Columns[i]
+		wp := []*float64{w.Min, w.Max, w.Mean, w.Median, w.StdDeviation}
+		gp := []*float64{g.Min, g.Max, g.Mean, g.Median, g.StdDeviation}
+		for j := range wp {
+			if !same(wp[j], gp[j]) {
+				res.Violate("profile-differs", "column %d %s written as %s reads back as %s", i, names[j], show(wp[j]), show(gp[j]))
+				return
+			}
+		}
+		if g.Name != w.Name || g.NACount != w.NACount || g.MinStrLen != w.MinStrLen || g.MaxStrLen != w.MaxStrLen || g.AvgStrLen != w.AvgStrLen {
+			res.Violate("profile-differs", "column %d reads back as %+v, written %+v", i, *g, *w)
+			return
+		}
+	}
+	var b2 bytes.Buffer
+	if _, err := got.WriteTo(&b2); err != nil || !bytes.Equal(b2.Bytes(), b.Bytes()) {
+		res.Violate("reencode-differs", "re-encoding the profile read back differs from the written bytes (err=%v)", err)
+		return
+	}
+	res.probe("profile_awkward_floats", 1)
+	res.Nontrivial = true
 }
